@@ -166,23 +166,24 @@ type relSpec struct {
 	PtrFK bool   // belongs-to whose foreign key field is a pointer
 	Ref   bool   // the foreign key refers to a unique non-primary column ("Code")
 	Poly  string // polymorphic: the holder_type value that means "owners"
+	ByVal bool   // the relation field is a slice of VALUES ([]T): its elements can be handed back by sub-slice or pointer
 	Join  string // join table (many to many)
 	JoinC string // target column of the join table
 }
 
 var rels = []relSpec{
 	{Name: "One", Kind: hasOne, Table: "ones", Elem: reflect.TypeOf(One{})},
-	{Name: "Many", Kind: hasMany, Table: "manies", Elem: reflect.TypeOf(Many{})},
-	{Name: "Notes", Kind: poly, Table: "notes", Elem: reflect.TypeOf(Note{}), Poly: "owners"},
+	{Name: "Many", Kind: hasMany, Table: "manies", Elem: reflect.TypeOf(Many{}), ByVal: true},
+	{Name: "Notes", Kind: poly, Table: "notes", Elem: reflect.TypeOf(Note{}), Poly: "owners", ByVal: true},
 	{Name: "Boss", Kind: belongsTo, Table: "bosses", Elem: reflect.TypeOf(Boss{}), PtrFK: true},
 	{Name: "Tags", Kind: m2m, Table: "tags", Elem: reflect.TypeOf(Tag{}), Join: "owner_tags", JoinC: "tag_id"},
 	{Name: "Chief", Kind: belongsTo, Table: "chiefs", Elem: reflect.TypeOf(Chief{})},
-	{Name: "Parts", Kind: hasMany, Table: "parts", Elem: reflect.TypeOf(Part{}), Str: true},
+	{Name: "Parts", Kind: hasMany, Table: "parts", Elem: reflect.TypeOf(Part{}), Str: true, ByVal: true},
 	{Name: "Langs", Kind: m2m, Table: "langs", Elem: reflect.TypeOf(Lang{}), Str: true, Join: "owner_langs", JoinC: "lang_code"},
 	{Name: "Docs", Kind: hasMany, Table: "docs", Elem: reflect.TypeOf(Doc{}), Comp: true},
-	{Name: "Refs", Kind: m2m, Table: "refs", Elem: reflect.TypeOf(Ref{}), Comp: true, Join: "owner_refs"},
+	{Name: "Refs", Kind: m2m, Table: "refs", Elem: reflect.TypeOf(Ref{}), Comp: true, Join: "owner_refs", ByVal: true},
 	{Name: "Guild", Kind: belongsTo, Table: "guilds", Elem: reflect.TypeOf(Guild{}), PtrFK: true, Ref: true},
-	{Name: "Badges", Kind: hasMany, Table: "badges", Elem: reflect.TypeOf(Badge{}), Ref: true},
+	{Name: "Badges", Kind: hasMany, Table: "badges", Elem: reflect.TypeOf(Badge{}), Ref: true, ByVal: true},
 	{Name: "Seal", Kind: hasOne, Table: "seals", Elem: reflect.TypeOf(Seal{}), Poly: "master"},
 }
 
@@ -315,10 +316,11 @@ type Step struct {
 	Args     [][]Val  // append/replace: one entry per in-memory owner; delete: one entry
 	Forms    []string // how each entry is passed: ptrs | slice | ptrslice | sliceptr | mixed | ptrarray | value | own-field
 	// how the call is reached
-	Handle     string // "" db | ctx | session | newdb | prepared | tx (Begin..Commit) | txfunc (db.Transaction)
-	DBUnscoped bool   // db.Unscoped().Model(..).Association(..).Unscoped(): permanent delete
-	Omit       bool   // db.Omit("<Rel>.*"): do not upsert the (saved) many-to-many targets, only join rows
-	Own        int    // form own-field: index of the in-memory owner whose own relation field goes to Delete
+	Handle     string  // "" db | ctx | session | newdb | prepared | tx (Begin..Commit) | txfunc (db.Transaction)
+	DBUnscoped bool    // db.Unscoped().Model(..).Association(..).Unscoped(): permanent delete
+	Omit       bool    // db.Omit("<Rel>.*"): do not upsert the (saved) many-to-many targets, only join rows
+	Own        int     // own-* forms of Delete: index of the in-memory owner whose own relation field is used
+	OwnIdx     [][]int // own-subslice / own-pointers: per Args entry, the indices into the owner's own field
 }
 
 func (s Step) String() string {
@@ -332,7 +334,11 @@ func (s Step) String() string {
 		for _, v := range vs {
 			x = append(x, v.String())
 		}
-		a = append(a, s.Forms[i]+"["+strings.Join(x, ",")+"]")
+		f := s.Forms[i]
+		if i < len(s.OwnIdx) && s.OwnIdx[i] != nil {
+			f += fmt.Sprint(s.OwnIdx[i])
+		}
+		a = append(a, f+"["+strings.Join(x, ",")+"]")
 	}
 	pre := ""
 	if s.Handle != "" {
@@ -344,7 +350,7 @@ func (s Step) String() string {
 	if s.Omit {
 		pre += "Omit(" + s.Rel + ".*):"
 	}
-	if len(s.Forms) == 1 && s.Forms[0] == "own-field" {
+	if len(s.Forms) == 1 && strings.HasPrefix(s.Forms[0], "own-") && s.Act == "delete" {
 		pre += fmt.Sprintf("own%d:", s.Own)
 	}
 	return fmt.Sprintf("%s%s%s.%s(%s)", pre, s.Rel, u, s.Act, strings.Join(a, "; "))
@@ -1177,6 +1183,27 @@ func (h *hist) step(s Step) string {
 		if s.Forms[i] == "own-field" {
 			break
 		}
+		if s.Forms[i] == "own-subslice" || s.Forms[i] == "own-pointers" {
+			// elements of the owner's OWN by-value relation field are handed back:
+			// owner.Rel[lo:hi] (aliasing its backing array) or &owner.Rel[k] in any order
+			oi := i
+			if s.Act == "delete" {
+				oi = s.Own
+			}
+			f := reflect.ValueOf(h.memOwner(oi)).Elem().FieldByName(r.Name)
+			idx := s.OwnIdx[i]
+			if len(idx) == 0 || idx[len(idx)-1] >= f.Len() && s.Forms[i] == "own-subslice" {
+				panic("harness: own-field indices out of range")
+			}
+			if s.Forms[i] == "own-subslice" {
+				callArgs = append(callArgs, f.Slice(idx[0], idx[len(idx)-1]+1).Interface())
+			} else {
+				for _, k := range idx {
+					callArgs = append(callArgs, f.Index(k).Addr().Interface())
+				}
+			}
+			continue
+		}
 		a := h.pack(r, vs, s.Forms[i])
 		if h.su.Slice && (s.Act == "append" || s.Act == "replace") {
 			if len(a) != 1 {
@@ -1653,9 +1680,72 @@ func (h *hist) genStep(rt *rapid.T, allowUnscoped bool) (Step, stepInfo) {
 	if s.Unscoped {
 		s.DBUnscoped = rapid.Bool().Draw(rt, "dbUnscoped")
 	}
+	// ownDraw: hand back elements of the owner's own by-value relation field (ordinary use:
+	// "keep these, drop the rest"): a sub-slice owner.Rel[lo:hi] or pointers &owner.Rel[k], any order
+	ownDraw := func(oi int, subsliceOnly bool) ([]Val, []int, string, bool) {
+		if !r.ByVal {
+			return nil, nil, "", false
+		}
+		f := reflect.ValueOf(h.memOwner(oi)).Elem().FieldByName(r.Name)
+		var keys []uint
+		for k := 0; k < f.Len(); k++ {
+			id := handleOf(f.Index(k), r)
+			if id == 0 {
+				return nil, nil, "", false
+			}
+			keys = append(keys, id)
+		}
+		if len(keys) == 0 {
+			return nil, nil, "", false
+		}
+		fm := "own-subslice"
+		if !subsliceOnly {
+			fm = rapid.SampledFrom([]string{"own-subslice", "own-pointers"}).Draw(rt, "ownForm")
+		}
+		var idx []int
+		if fm == "own-subslice" {
+			lo := rapid.IntRange(0, len(keys)-1).Draw(rt, "ownLo")
+			hi := rapid.IntRange(lo+1, len(keys)).Draw(rt, "ownHi")
+			for k := lo; k < hi; k++ {
+				idx = append(idx, k)
+			}
+		} else {
+			all := make([]int, len(keys))
+			for k := range all {
+				all[k] = k
+			}
+			perm := rapid.Permutation(all).Draw(rt, "ownPerm")
+			n := rapid.IntRange(1, len(perm)).Draw(rt, "ownN")
+			if n > 4 {
+				n = 4
+			}
+			idx = perm[:n]
+		}
+		var vs []Val
+		seen := map[uint]bool{}
+		for _, k := range idx {
+			vs = append(vs, Val{ID: keys[k]})
+			if seen[keys[k]] {
+				info.dup = true
+			}
+			seen[keys[k]] = true
+		}
+		info.classes = append(info.classes, "val:linked-self")
+		info.linked = true
+		return vs, idx, fm, true
+	}
 	switch s.Act {
 	case "append", "replace":
-		for _, o := range mem {
+		s.OwnIdx = make([][]int, len(mem))
+		for oi, o := range mem {
+			if r.ByVal && rapid.IntRange(0, 4).Draw(rt, "own") == 0 {
+				if vs, idx, fm, ok := ownDraw(oi, h.su.Slice); ok {
+					s.Args = append(s.Args, vs)
+					s.Forms = append(s.Forms, fm)
+					s.OwnIdx[oi] = idx
+					continue
+				}
+			}
 			n := 1
 			if !r.single() {
 				n = rapid.IntRange(1, 3).Draw(rt, "nvals")
@@ -1685,7 +1775,24 @@ func (h *hist) genStep(rt *rapid.T, allowUnscoped bool) (Step, stepInfo) {
 			}
 		}
 		s.Args = [][]Val{vs}
-		f := rapid.SampledFrom([]string{"ptrs", "slice", "ptrslice", "sliceptr", "mixed", "ptrarray", "value", "own-field"}).Draw(rt, "form")
+		f := rapid.SampledFrom([]string{"ptrs", "slice", "ptrslice", "sliceptr", "mixed", "ptrarray", "value", "own-field", "own-elements"}).Draw(rt, "form")
+		if f == "own-elements" {
+			f = "ptrs"
+			var cands []int
+			for i, o := range mem {
+				if r.ByVal && len(h.m.linked(r, []uint{o})) > 0 {
+					cands = append(cands, i)
+				}
+			}
+			if len(cands) > 0 {
+				oi := cands[rapid.IntRange(0, len(cands)-1).Draw(rt, "own")]
+				if ovs, idx, fm, ok := ownDraw(oi, false); ok {
+					s.Own, vs, f = oi, ovs, fm
+					s.Args = [][]Val{vs}
+					s.OwnIdx = [][]int{idx}
+				}
+			}
+		}
 		if f == "own-field" {
 			// Delete(&owner.Rel): what the owner object holds, i.e. (memory = model) its links
 			var cands []int
@@ -1803,6 +1910,19 @@ func TestC12(t *testing.T) {
 			}
 			for _, f := range s.Forms {
 				classes["form:"+f] = true
+			}
+			for i, idx := range s.OwnIdx {
+				if idx == nil {
+					continue
+				}
+				classes["own-elements/"+s.Act+"/"+s.Forms[i]] = true
+				outOfOrder := false
+				for k := 1; k < len(idx); k++ {
+					outOfOrder = outOfOrder || idx[k] < idx[k-1]
+				}
+				if s.Act == "replace" && ((s.Forms[i] == "own-subslice" && idx[0] >= 1 && len(idx) >= 2) || (s.Forms[i] == "own-pointers" && outOfOrder)) {
+					classes["own-elements/replace/aliasing-shift (sub-slice from index>=1, or pointers out of order)"] = true
+				}
 			}
 			if s.Handle != "" {
 				classes["handle:"+s.Handle] = true
